@@ -696,6 +696,15 @@ class Ghost:
         rng = z3.And(m >= zint(int_term(lo)), m < zint(int_term(hi)))
         return SBool(z3.ForAll([m], z3.Implies(rng, bt)))
 
+    def vc_raw(self, args, kwargs, node):
+        """vc.raw(fn): evaluate fn() reading symbolic sequences as total functions of the
+        index (no bounds checks, no forks) -- for instantiating quantified facts by hand"""
+        self.raw_index = True
+        try:
+            return self.I.call(args[0], [], {}, node)
+        finally:
+            self.raw_index = False
+
     def vc_assume(self, args, kwargs, node):
         I = self.I
         c = args[0]
